@@ -20,7 +20,9 @@ def _is_intlike(x) -> bool:
         return True
     if isinstance(x, (numbers.Real, se.Basic)):
         f = float(x)
-        return math.isnan(f) or int(f) == f
+        # Integral values outside the int64 range must stay floats: casting them to int
+        # would silently overflow.
+        return math.isnan(f) or (int(f) == f and -(2.0**63) <= f < 2.0**63)
     return False
 
 
